@@ -273,3 +273,19 @@ def run(ctx):
     for d in ups:
         res.check(guarded_or_identity(None, d), "R10.7", "highest-index-ignores-last", "%s bb%d" % (vq.where(), d[0]),
                   "highest_index updated only for arguments that are not `last`", "highest_index also counts a missing `last` positional: optional positionals before it are reported as missing required arguments although no rule requires them")
+
+
+    # ---- R10.4c suggestions are drawn from the command the error is about
+    nis = 0
+    for bb in fx.bodies(r"^clap_builder::"):
+        for c in bb.calls_to(r"error::Error::invalid_subcommand$"):
+            if bb.q.startswith("clap_builder::error::"):
+                continue
+            nis += 1
+            about = expr(bb, c.args[0])
+            cand = expr(bb, c.args[2], 10) if len(c.args) > 2 else ""
+            m = re.search(r"all_subcommand_names\(([^()]*(?:\([^()]*\))*[^()]*)\)", cand)
+            src = m.group(1) if m else None
+            res.check(src is not None and src == about, "R10.4", "suggestions-from-same-command|" + bb.q.rsplit("::", 1)[1], c.where(), "candidates = subcommand names of the command the error is raised for (%s)" % about[:40],
+                      "invalid_subcommand is raised for `%s` but its suggestions are drawn from `%s`: names that are not subcommands of that command can be suggested" % (about[:50], (src or cand)[:60]))
+    res.floor("R10.4", "invalid_subcommand call sites", nis, 1)
